@@ -300,9 +300,13 @@ def parse_big(it, cs, radix):
     W = horner_width(len(dvs), radix)
     if len(dvs) * DIGIT_BITS.get(radix, 6) > BW - 8: raise Unsupported('bignum literal of %d digits exceeds the bignum model' % len(dvs))
     V = horner(dvs, radix, W)
-    V, _ = horner_value(it, V)
+    V, hit = horner_value(it, V)
     X = fit(V, BW)
     X = z3.simplify(-X if neg else X)
+    if hit and V.size() <= 64 and not z3.is_bv_value(X):
+        # the magnitude is a narrow machine value: remember it, so that later arithmetic on this bignum can run at its width
+        sm = z3.ZeroExt(1, V)
+        it.ghost.setdefault('_bigsmall', {})[X.get_id()] = (X, z3.simplify(-sm if neg else sm))
     if z3.is_bv_value(X): return mk_ok(Big(X.as_signed_long()))
     return mk_ok(Big(X))
 
@@ -385,12 +389,50 @@ def install(prog):
         d = parse_big(it, sp[1], radix)
         if d.var == 1: return err('ParseError')
         nv, dv = n.f[0].v, d.f[0].v
-        if it.branch(it.binop('Eq', dv, 0, 'i192') if False else (dv == 0 if is_sym(dv) else dv == 0)): return err('ZeroDenominator')
-        return mk_ok(Agg('BigRatio', None, [n.f[0], d.f[0]]))
+        if it.branch(dv == 0 if is_sym(dv) else dv == 0): return err('ZeroDenominator')
+        # Ratio::new: reduce to lowest terms, denominator > 0 (one side concrete: case split over its divisors)
+        from .models_num import gcd32
+        if not is_sym(nv) and not is_sym(dv):
+            import math
+            g = math.gcd(nv, dv) or 1
+            nn, dd = nv // g, dv // g
+            if dd < 0: nn, dd = -nn, -dd
+            return mk_ok(Agg('BigRatio', None, [Big(nn), Big(dd)]))
+        if is_sym(dv):
+            dv = it.concretize(dv, limit=16)          # tiny domains only (a one-digit denominator of a symbolic text)
+            if dv >= 1 << (BW - 1): dv -= 1 << BW
+        if is_sym(nv) and it.branch(nv == 0): return mk_ok(Agg('BigRatio', None, [Big(0), Big(1)]))
+        sm = it.ghost.get('_bigsmall', {}).get(nv.get_id()) if is_sym(nv) else None
+        if sm is not None and not is_sym(dv) and abs(dv) < (1 << 62):
+            # numerator is a narrow value: reduce at its width (a 384-bit division lemma costs a second per query)
+            ns = sm[1]; w = ns.size()
+            g = gcd32(it, ns, dv, w)
+            if is_sym(g): raise Unsupported('symbolic gcd in BigRational::new')
+            if g == 1: qn = ns
+            elif g & (g - 1) == 0: qn = ns >> (g.bit_length() - 1)
+            else:
+                from .models_num import div_lemma as dl
+                qn = dl(it, ns, g)[0]
+            dd = dv // g
+            if dd < 0: qn, dd = -qn, -dd
+            return mk_ok(Agg('BigRatio', None, [Big(z3.simplify(z3.SignExt(BW - w, qn))), Big(dd)]))
+        g = gcd32(it, nv, dv, BW)
+        def divg(x):
+            if not is_sym(x): return x // g if x % g == 0 else (abs(x) // g) * (1 if x > 0 else -1)
+            if g == 1: return x
+            if g & (g - 1) == 0: return x >> (g.bit_length() - 1)          # exact division by a power of two
+            return it.div_lemma(x, g, BW, True)[0]
+        if is_sym(g): raise Unsupported('symbolic gcd in BigRational::new')
+        nn, dd = divg(nv), divg(dv)
+        neg = (dd < 0) if not is_sym(dd) else it.branch(dd < 0)
+        if neg: nn, dd = (-nn, -dd)
+        nn = z3.simplify(nn) if is_sym(nn) else nn; dd = z3.simplify(dd) if is_sym(dd) else dd
+        return mk_ok(Agg('BigRatio', None, [Big(nn), Big(dd)]))
 
     @M(r'Ratio::<BigInt>::is_integer')
     def _(it, m, a):
         r = deref(a[0]); n, d = r.f[0].v, r.f[1].v
+        if not is_sym(d): return d == 1          # ratios are kept reduced with a positive denominator (Ratio::new)
         if not is_sym(n) and not is_sym(d): return n % d == 0
         if not is_sym(d) and abs(d) == 1: return True
         if not is_sym(d) and abs(d) & (abs(d) - 1) == 0:
